@@ -102,7 +102,7 @@ def run_case(case, ctx):
 
 
 def shard_main(ctx):
-    ctx.explore("export", cases(), run_case, ctx.n(70, 1500))
+    ctx.explore("export", cases(), run_case, ctx.n(200, 2000))
 
 
 def replay(case, ctx):
